@@ -188,8 +188,23 @@ SetToSeq(S) == LET RECURSIVE f(_)
                            ELSE LET m == CHOOSE x \in T : \A y \in T : x <= y IN <<m>> \o f(T \ {m})
                IN f(S)
 
+\* Dependency lists.  A chart may depend on several charts of one repository, and on the same chart
+\* more than once (under aliases) with different ranges.  Every dependency is locked on its own:
+\* the lock of a list is the list of the locks, whatever the order and whatever the other entries.
+LockList(qs) == [i \in DOMAIN qs |-> LockOK(qs[i])]
+
+\* the list replayed for a case: all queries as ranges, rotated by the case number; for every other
+\* case all dependencies name the SAME chart (aliased), else each names a chart of its own
+NQ == Len(Queries)
+DepOrder == [i \in 1..NQ |-> ((i - 1 + (CodeOf(idx) \div 2)) % NQ) + 1]
+SameChart == CodeOf(idx) % 2 = 1
+
+Inv_LockList == \A i \in 1..NQ : LockList(DepOrder)[i] = LockOK(DepOrder[i])
+
 CaseRecord ==
   [code    |-> CodeOf(idx),
+   sameChart |-> SameChart,
+   depOrder |-> DepOrder,
    entries |-> idx,
    groups  |-> [i \in DOMAIN d.groups |-> SetToSeq(d.groups[i])],
    loaded  |-> Loaded,
